@@ -4,6 +4,9 @@ import (
 	"fmt"
 	"math"
 	"reflect"
+	"runtime"
+	"strconv"
+	"strings"
 	"unsafe"
 
 	"gopkg.in/typ.v4/lists"
@@ -34,10 +37,46 @@ var elemByName = func() map[string]etype {
 }()
 
 func addType[E any](list *[]etype, name string, conv func(int) E, eq func(a, b E) bool) {
+	addTypeOwn(list, name, conv, nil, eq)
+}
+
+// preBase is the value number of the bottom value of a preloaded stack (value i has number preBase+i).
+const preBase = 1 << 20
+
+// maxPreBytes bounds the backing array of a preloaded stack of a non-zero-size element type.
+const maxPreBytes = 256 << 20
+
+// parsePre reads the container name "stack-pre<L>+<S>": a Stack converted from a slice that already holds L
+// values (the last one is the top) and has S further elements of unused capacity.
+func parsePre(container string) (l, s int, ok bool) {
+	rest, found := strings.CutPrefix(container, "stack-pre")
+	if !found {
+		return 0, 0, false
+	}
+	a, b, found := strings.Cut(rest, "+")
+	if !found {
+		return 0, 0, false
+	}
+	l, err1 := strconv.Atoi(a)
+	s, err2 := strconv.Atoi(b)
+	if err1 != nil || err2 != nil || l < 0 || s < 0 || l+s < l {
+		return 0, 0, false
+	}
+	return l, s, true
+}
+
+func preKind(l, s int, elem string) string { return fmt.Sprintf("stack-pre%d+%d/%s", l, s, elem) }
+
+// addTypeOwn: with modelConv != nil the model keeps a value built by modelConv (a separate object that is equal
+// under eq) instead of the very value handed to the library, so that the container holds the only reference to
+// what was inserted.
+func addTypeOwn[E any](list *[]etype, name string, conv, modelConv func(int) E, eq func(a, b E) bool) {
 	var zero E
-	et := etype{name: name, size: unsafe.Sizeof(zero), big: unsafe.Sizeof(zero) > 128}
+	size := unsafe.Sizeof(zero)
+	et := etype{name: name, size: size, big: size > 128}
 	et.mk = func(tag, container string, quiet bool) engine {
 		var b box[E]
+		var model []E
 		fifo := false
 		switch container {
 		case "queue":
@@ -52,11 +91,44 @@ func addType[E any](list *[]etype, name string, conv func(int) E, eq func(a, b E
 		case "stack-cap100":
 			b = stackBox(make(lists.Stack[E], 0, 100))
 		default:
-			return nil
+			l, s, ok := parsePre(container)
+			if !ok || (size > 0 && uintptr(l+s) > maxPreBytes/size) {
+				return nil
+			}
+			buf := make([]E, l, l+s)
+			model = make([]E, l)
+			if size > 0 { // all values of a zero-size type are the same value (and l may be astronomically large)
+				for i := range buf {
+					buf[i] = conv(preBase + i)
+					if modelConv == nil {
+						model[i] = buf[i]
+					} else {
+						model[i] = modelConv(preBase + i)
+					}
+				}
+			}
+			b = stackBox(lists.Stack[E](buf))
 		}
-		return &eng[E]{tag: tag, b: b, fifo: fifo, quiet: quiet, conv: conv, eq: eq}
+		e := &eng[E]{tag: tag, b: b, fifo: fifo, quiet: quiet, conv: conv, modelConv: modelConv, eq: eq, model: model}
+		e.maxLen = len(model)
+		return e
 	}
 	*list = append(*list, et)
+}
+
+// gcNow is the "garbage collection in the middle of a history" step: a full collection, then a burst of small
+// allocations of the sizes the element types use, so that memory the collector has just freed is handed out again.
+func gcNow() {
+	runtime.GC()
+	junk := make([]any, 0, 96)
+	for i := 0; i < 32; i++ {
+		p := new(int)
+		*p = -7777
+		q := new([4]int)
+		q[0], q[3] = -7777, -7777
+		junk = append(junk, p, q, fmt.Sprintf("junk%d", i))
+	}
+	runtime.KeepAlive(junk)
 }
 
 func same[E comparable](a, b E) bool { return a == b }
@@ -223,5 +295,33 @@ func buildTypes() []etype {
 	addType(l, "[50]byte", func(v int) (a [50]byte) { a[0], a[1], a[2], a[49] = byte(v), byte(v>>8), byte(v>>16), byte(v); return }, same[[50]byte])
 	addType(l, "[100]byte", func(v int) (a [100]byte) { a[0], a[1], a[2], a[99] = byte(v), byte(v>>8), byte(v>>16), byte(v); return }, same[[100]byte])
 	addType(l, "[40]int64", func(v int) (a [40]int64) { a[0], a[39] = int64(v), int64(-v); return }, same[[40]int64])
+	// exactly 128 bytes, one more, and a very wide element
+	addType(l, "[16]int64", func(v int) (a [16]int64) { a[0], a[7], a[15] = int64(v), int64(v)<<20, int64(-v); return }, same[[16]int64])
+	addType(l, "[129]byte", func(v int) (a [129]byte) { a[0], a[1], a[2], a[128] = byte(v), byte(v>>8), byte(v>>16), byte(v); return }, same[[129]byte])
+	addType(l, "[1500]byte", func(v int) (a [1500]byte) { a[0], a[1], a[2], a[750], a[1499] = byte(v), byte(v>>8), byte(v>>16), byte(v), byte(v>>8); return }, same[[1500]byte])
+	// a zero-size type that is not comparable
+	addType(l, "[0]func", func(v int) [0]func() { return [0]func(){} }, func(a, b [0]func()) bool { return true })
+	// values that only the container references: the model keeps an equal value in a separate allocation
+	ownInt := func(v int) *int {
+		if v == 0 {
+			return nil
+		}
+		p := new(int)
+		*p = v
+		return p
+	}
+	addTypeOwn(l, "*int-own", ownInt, ownInt, func(a, b *int) bool {
+		if a == nil || b == nil {
+			return a == nil && b == nil
+		}
+		return *a == *b
+	})
+	ownStr := func(v int) string {
+		if v == 0 {
+			return ""
+		}
+		return strings.Repeat("x", v%5) + strconv.Itoa(v) // built (allocated) anew by every call
+	}
+	addTypeOwn(l, "string-own", ownStr, ownStr, same[string])
 	return list
 }
